@@ -139,4 +139,73 @@ def maxClaimL : List Cbor → Nat
   | x :: xs => max (maxClaim x) (maxClaimL xs)
 end
 
+
+/-! ### `StreamDecoder.RawBytes(offset, length)` — Go `int` arithmetic (64-bit, wrapping) -/
+def two63 : Int := 9223372036854775808
+def two64 : Int := 18446744073709551616
+/-- two's-complement wrap of an exact integer into int64 -/
+def wrapS64 (x : Int) : Int := (x + two63) % two64 - two63
+def isInt64 (x : Int) : Prop := -two63 ≤ x ∧ x < two63
+
+/-- `RawBytes`: `nil` (`.val none`), the slice bounds `data[lo:hi]`, or `oob` when
+    the final slice expression would be out of range (a Go panic). -/
+def rawBytes (len offset length : Int) : Out (Option (Int × Int)) :=
+  if offset < 0 ∨ length < 0 then .val none else
+  let endv := wrapS64 (offset + length)
+  if endv < offset ∨ endv > len then .val none else
+  if 0 ≤ offset ∧ offset ≤ endv ∧ endv ≤ len then .val (some (offset, endv)) else .oob
+
+/-! ### diagnostic parser: `parseCollectionHeader(data, offset)` and
+    `parseTagHeader(data, offset)` (cbor/diagnostic.go) -/
+
+/-- (length, header length, indefinite) or an error -/
+def collectionHeaderAt (b : Bytes) (offset : Nat) : Out (Option (Nat × Nat × Bool)) :=
+  if offset ≥ b.length then .val none else
+  match rd b offset with
+  | .oob => .oob
+  | .val first =>
+    let ai := first % 32
+    if ai < 24 then .val (some (ai, 1, false))
+    else if ai = 24 then
+      if offset + 1 ≥ b.length then .val none else
+      match rdN b (offset + 1) 1 with | .val v => .val (some (v, 2, false)) | .oob => .oob
+    else if ai = 25 then
+      if offset + 2 ≥ b.length then .val none else
+      match rdN b (offset + 1) 2 with | .val v => .val (some (v, 3, false)) | .oob => .oob
+    else if ai = 26 then
+      if offset + 4 ≥ b.length then .val none else
+      match rdN b (offset + 1) 4 with
+      | .val v => if v > maxInt32 then .val none else .val (some (v, 5, false))
+      | .oob => .oob
+    else if ai = 27 then
+      if offset + 8 ≥ b.length then .val none else
+      match rdN b (offset + 1) 8 with
+      | .val v => if v > maxInt32 then .val none else .val (some (v, 9, false))
+      | .oob => .oob
+    else if ai = 31 then .val (some (0, 1, true))
+    else .val none
+
+/-- (tag number, header length) or an error -/
+def tagHeaderAt (b : Bytes) (offset : Nat) : Out (Option (Nat × Nat)) :=
+  if offset ≥ b.length then .val none else
+  match rd b offset with
+  | .oob => .oob
+  | .val first =>
+    if first / 32 * 32 ≠ 0xc0 then .val none else
+    let ai := first % 32
+    if ai < 24 then .val (some (ai, 1))
+    else if ai = 24 then
+      if offset + 1 ≥ b.length then .val none else
+      match rdN b (offset + 1) 1 with | .val v => .val (some (v, 2)) | .oob => .oob
+    else if ai = 25 then
+      if offset + 2 ≥ b.length then .val none else
+      match rdN b (offset + 1) 2 with | .val v => .val (some (v, 3)) | .oob => .oob
+    else if ai = 26 then
+      if offset + 4 ≥ b.length then .val none else
+      match rdN b (offset + 1) 4 with | .val v => .val (some (v, 5)) | .oob => .oob
+    else if ai = 27 then
+      if offset + 8 ≥ b.length then .val none else
+      match rdN b (offset + 1) 8 with | .val v => .val (some (v, 9)) | .oob => .oob
+    else .val none
+
 end GV.Model.Walkers
